@@ -111,6 +111,8 @@ def call_builtin(run, name, args, kwargs, node, fr):
             return v if name == "tuple" else ops.seq_from_items(run, v.items, None)
         if isinstance(v, Conc) and isinstance(v.obj, tuple) and v.obj[0] == "seqview":
             return v.obj[1]
+        if isinstance(v, Conc) and isinstance(v.obj, tuple) and v.obj[0] == "dictkeys":
+            return dict_keys_enum(run, v.obj[1])
         return ops.iter_to_seq(run, v, node)
     if name in ("set", "frozenset"):
         if not args:
@@ -168,17 +170,34 @@ def call_builtin(run, name, args, kwargs, node, fr):
         if len(args) >= 2 and isinstance(args[1], Val) and args[1].ty is TStr:
             s = z3.simplify(args[1].t)
             if z3.is_string_value(s):
-                try:
-                    return run.get_attr(args[0], s.as_string(), node)
-                except Exception:
-                    if len(args) == 3:
-                        raise err("getattr with default on a symbolic object")
-                    raise
+                # a declared field stands for the attribute; "absent" must be modelled by the field's own value
+                # (e.g. an empty list) - the default argument is then never needed
+                return run.get_attr(args[0], s.as_string(), node)
         raise err("getattr with symbolic name")
     h = run.x.reg.stubs.get(("builtin", name))
     if h is not None:
         return h(run, args, kwargs, node)
     raise err(f"builtin {name} not supported (line {getattr(node, 'lineno', '?')})")
+
+
+def dict_keys_enum(run, d):
+    """list(d.keys()) of a dict whose insertion order is not tracked: SOME duplicate-free enumeration of the key set
+    (every order Python could produce is covered)."""
+    ty = d.ty
+    sty = TSeq(ty.k)
+    K = z3.FreshConst(sty.sort(), "keys")
+    pos = lambda key: ops.keypos(K, key)
+    i, j = z3.FreshConst(z3.IntSort(), "ki"), z3.FreshConst(z3.IntSort(), "kj")
+    k = z3.FreshConst(ty.k.sort(), "kk")
+    n = z3.Length(K)
+    for ax in (
+        n == ty.size(d.t),
+        z3.ForAll([i], z3.Implies(z3.And(0 <= i, i < n), z3.And(z3.Select(ty.has(d.t), K[i]), pos(K[i]) == i))),
+        z3.ForAll([k], z3.Implies(z3.Select(ty.has(d.t), k), z3.And(0 <= pos(k), pos(k) < n, K[pos(k)] == k))),
+    ):
+        run.pc.append(ax)
+        run.solver_add(ax)
+    return Val(sty, K)
 
 
 def any_all_genexp(run, name, gen, fr, node):
@@ -421,7 +440,9 @@ def set_method(run, s, attr, args, kwargs, node):
         had = z3.Select(ty.has(t), k.t)
         if attr == "remove":
             run.implicit_raise(had, "KeyError", node)
-        return NONE, Val(ty, ty.mk(z3.Store(ty.has(t), k.t, False), z3.If(had, ty.size(t) - 1, ty.size(t))))
+        new = Val(ty, ty.mk(z3.Store(ty.has(t), k.t, False), z3.If(had, ty.size(t) - 1, ty.size(t))))
+        run.wf(new)
+        return NONE, new
     if attr == "copy":
         return s, None
     if attr == "clear":
